@@ -5,6 +5,7 @@ package world
 import (
 	"context"
 	"fmt"
+	"github.com/thushan/olla/internal/adapter/security"
 	"io"
 	"log/slog"
 	"net"
@@ -320,6 +321,19 @@ func (w *World) Health() *health.HTTPHealthChecker {
 		panic(err)
 	}
 	return h
+}
+
+// RateLimiter returns the per-IP rate limiter of the running stack.
+func (w *World) RateLimiter() *security.RateLimitValidator {
+	s, err := w.Mgr.GetRegistry().GetSecurity()
+	if err != nil {
+		panic(err)
+	}
+	a, err := s.GetAdapters()
+	if err != nil {
+		panic(err)
+	}
+	return a.RateLimit
 }
 
 func (w *World) Stats() ports.StatsCollector {
